@@ -566,9 +566,16 @@ func decodeCookieArg(dst, src []byte, skipQuotes bool) []byte {
 }
 
 func getCookieKey(dst, src []byte) []byte {
+	// the name is in the first pair only, attributes follow after ';'; a first pair
+	// without '=' is a value without a name (as Cookie.ParseBytes reads it)
+	if n := bytes.IndexByte(src, ';'); n >= 0 {
+		src = src[:n]
+	}
 	n := bytes.IndexByte(src, '=')
 	if n >= 0 {
 		src = src[:n]
+	} else {
+		src = src[:0]
 	}
 	return decodeCookieArg(dst, src, false)
 }
